@@ -35,7 +35,7 @@ type pubIn struct {
 	QoS      uint8
 	PID      uint16
 	Dup, Ret bool
-	Others   int // bit mask: payloadformat, expiry, responsetopic, correlation, contenttype, payload
+	Others   int    // bit mask: payloadformat, expiry, responsetopic, correlation, contenttype, payload
 	SubID    uint32 // 0: none; a subscription identifier added with AddSubscriptionID (the documented rule does not mention it)
 }
 
